@@ -11,7 +11,7 @@
    thresholds of clause 1 (changing it needs old <= L, as the Matrix rule for users_default says),
    see users_default_at_equality_concrete below. *)
 From Verif Require Import Lib.Bytes Json.Ast Json.Parse Auth.GoJson Auth.Ids Auth.Types Auth.Versions Auth.Abs
-     Auth.Decide Auth.Model Auth.PLSpec Auth.PLProofs.
+     Auth.Decide Auth.Model Auth.PLSpec Auth.PLProofs Auth.AllowedSpec Auth.SpecProofs.
 Open Scope Z_scope.
 
 (* (1)-(5) for every accepted change; L is the sender's effective level (userPowerLevel) *)
@@ -109,12 +109,20 @@ Proof. exact strict_parse_integer_only. Qed.
 
 Theorem v10_and_later_integer_only :
   forall ver f,
-    In ver [bs "10"; bs "11"; bs "12"; bs "org.matrix.hydra.11"; bs "org.matrix.msc4014"] ->
-    flags_of_version ver = Some f -> vf_int_levels f = true.
+    In ver all_versions -> flags_of_version ver = Some f ->
+    vf_int_levels f = spec_int_levels ver.
 Proof.
-  intros ver f Hin Hf. simpl in Hin.
-  destruct Hin as [<-|[<-|[<-|[<-|[<-|[]]]]]]; vm_compute in Hf; inversion Hf; reflexivity.
+  intros ver f Hin Hf. rewrite (version_flags_eq_spec ver Hin) in Hf.
+  unfold spec_flags_of in Hf. destruct (spec_rules_of ver); inversion Hf. reflexivity.
 Qed.
+
+(* the hand-written list: versions 10, 11, 12 and the unstable versions built on them or
+   introducing the rule *)
+Example integer_only_versions_concrete :
+  spec_int_level_versions =
+  [bs "10"; bs "11"; bs "12"; bs "org.matrix.msc4014"; bs "org.matrix.msc3667"; bs "org.matrix.hydra.11"]
+  /\ spec_int_levels (bs "9") = false /\ spec_int_levels (bs "org.matrix.msc3787") = false.
+Proof. vm_compute. repeat split; reflexivity. Qed.
 
 (* the faithful model refutes the unqualified claim: a null level is accepted in version 10+ *)
 Theorem null_level_accepted_refuted :
